@@ -104,6 +104,23 @@ def check(ctx: Ctx) -> None:
                         e = float((Tn - 1 - (i % Tn)) * dt_q)
                         if one.shape != (2, 1) or not bool(((one - e).abs() <= tol).all()):
                             ctx.violation("grid:ttm-step", f"time_to_maturity({i}) is not (T-1-i)*dt", {"dt": r["dt"], "T": Tn, "i": i, "observed": one.flatten().tolist(), "expected": e})
+                    # payoffs, features and hedges use THIS grid: step i of every feature (negative indices included) is
+                    # column i of the simulated series, and the contract is settled on its last column
+                    if hasattr(d, "moneyness"):
+                        K = d.strike
+                        for i in sorted({0, Tn - 1, -1, -Tn}):
+                            col = stock.spot[:, [i % Tn]]
+                            for fname, got, want in (("moneyness", d.moneyness(i), col / K), ("log_moneyness", d.log_moneyness(i), (col / K).log())):
+                                ctx.count(n=1)
+                                if got.shape != (2, 1) or not torch.equal(got, want):
+                                    ctx.violation(f"grid:{fname}-step", f"{fname}({i}) is not column {i % Tn} of the simulated series (the maturity step for -1)",
+                                                  {"dt": r["dt"], "T": Tn, "i": i, "shape": list(got.shape)})
+                        if dcls.__name__ == "EuropeanOption":
+                            ctx.count(n=1)
+                            want = (stock.spot[:, -1] - K).clamp(min=0) if d.call else (K - stock.spot[:, -1]).clamp(min=0)
+                            if not torch.equal(d.payoff(), want):
+                                ctx.violation("grid:payoff-not-terminal", "the European payoff is not settled on the last point of the simulated grid (where time to maturity is zero)",
+                                              {"dt": r["dt"], "k": k, "f": r["f"], "T": Tn, "maturity": M_f})
         # the same derivative object re-used with a new step size and maturity (same T, different dt for consecutive
         # cases): the grid must follow the underlier's CURRENT dt
         if T <= 80:
